@@ -85,8 +85,14 @@ class C18Run(object):
         used = set()
         for i in range(n):
             port = 9050 + i * 11 + ch.draw(7, 'eport')
-            k = ch.weighted([4, 2, 2], 'eform')
-            if k == 0:
+            k = ch.weighted([8, 4, 4, 1], 'eform')
+            if k == 3:
+                # "auto": Tor picks the port itself, so the line does not say where to connect; it is a listener all the same
+                first = ch.pick(['auto', 'Auto'], 'autocase')
+                if any(u.lower() == 'auto' for u in used):
+                    continue
+                sim.probe('entry-auto')
+            elif k == 0:
                 first = str(port)
             elif k == 1:
                 first = '127.0.0.1:%d' % port
@@ -137,8 +143,17 @@ class C18Run(object):
         effective = list(entries) if entries is not None else [self.default_port]
         firsts = [e.split()[0] for e in effective]
         # what is asked for
-        api = ['helper', 'config-create', 'config-sync', 'tor-stream-via'][ch.weighted([5, 3, 2, 3], 'api')]
+        api = ['helper', 'config-create', 'config-sync', 'tor-stream-via', 'legacy-web-agent'][ch.weighted([5, 3, 2, 3, 1], 'api')]
         sim.probe('api-' + api)
+        if entries is not None and any(e.split()[0].lower() == 'auto' for e in entries) and (
+                api in ('config-create', 'config-sync', 'legacy-web-agent') or
+                (api == 'tor-stream-via' and all(e.split()[0].lower() == 'auto' for e in entries))):
+            # the TorConfig forms take the first configured line as it is; with "auto" they cannot know the port (not prescribed)
+            entries = [e for e in entries if e.split()[0].lower() != 'auto'] or ['9050']
+            self.entries = entries
+            self.co.values = list(entries)
+            effective = list(entries)
+            firsts = [e.split()[0] for e in effective]
         if api == 'tor-stream-via':
             return self.part_a_tor(effective, firsts)
         k = ch.weighted([3, 3, 3], 'req')
@@ -146,9 +161,9 @@ class C18Run(object):
             requested = None
             sim.probe('requested-none')
         elif k == 1:
-            requested = ch.pick(firsts, 'reqpresent')
-            sim.probe('requested-present')
-            full = [e for e in effective if ' ' in e]
+            requested = ch.pick([f for f in firsts if f.lower() != 'auto'] or [None], 'reqpresent')
+            sim.probe('requested-present' if requested is not None else 'requested-none')
+            full = [e for e in effective if ' ' in e and e.split()[0].lower() != 'auto']
             if full and api != 'config-sync' and ch.chance(1, 2, 'reqfull'):
                 # the whole configured line, option words included ("a valid configuration line for SocksPort")
                 requested = ch.pick(full, 'reqfullv')
@@ -158,6 +173,12 @@ class C18Run(object):
             if any(requested in e for e in effective):
                 requested = '39999'
             sim.probe('requested-absent')
+        if api == 'legacy-web-agent':
+            # txtorcon.web.agent_for_socks_port(reactor, torconfig, socks_config): a port is required, and its
+            # docstring's own example passes it as an int
+            if requested is None or ' ' in requested:
+                requested = [f for f in firsts if f.lower() != 'auto'][0]
+            self.legacy_int = requested.isdigit() and ch.chance(1, 2, 'legacyint')
         self.requested = requested
         sim.log('socksport', repr(entries), self.default_port, api, requested)
         self.proto = TorControlProtocol()
@@ -176,6 +197,9 @@ class C18Run(object):
 
                 def have_cfg(cfg):
                     self.cfg = cfg
+                    if api == 'legacy-web-agent':
+                        import txtorcon.web as tweb
+                        return tweb.agent_for_socks_port(sim.reactor, cfg, int(requested) if self.legacy_int else requested)
                     if api == 'config-create':
                         return cfg.create_socks_endpoint(sim.reactor, requested)
                     return cfg.socks_endpoint(sim.reactor, requested)
@@ -195,6 +219,7 @@ class C18Run(object):
         from txtorcon.controller import Tor
         sim, ch, tor = self.sim, self.ch, self.tor
         sim.log('socksport', repr(self.entries), self.default_port, 'tor-stream-via')
+        firsts = [f for f in firsts if f.lower() != 'auto']
         for f in firsts:
             a = self.entry_addr(f)
             if a[0] == 'unix':
@@ -280,7 +305,8 @@ class C18Run(object):
         kind, val = self.result[0]
         requested = self.requested
         socks_setconfs = [items for items in self.setconfs if any(k.lower() == 'socksport' for k, v in items)]
-        present = requested is None or requested in firsts or requested in effective
+        usable = [f for f in firsts if f.lower() != 'auto']
+        present = (requested is None and bool(usable)) or requested in firsts or requested in effective
         if self.dunder_fault:
             # the request may fail; what it must not do is re-configure Tor, whose default listener is in use
             if socks_setconfs:
@@ -306,12 +332,15 @@ class C18Run(object):
             sim.fail('C18.endpoint-request-failed', 'request for SOCKS port %r failed: %s: %s (Tor has %r)' % (
                 requested, val.type.__name__, val.getErrorMessage()[:120], effective))
         got = self.describe_ep(val)
+        if api == 'legacy-web-agent':
+            # the result is an IAgent; only what happened to Tor's configuration is compared
+            got = self.entry_addr(requested.split()[0])
         if present:
             sim.probe('existing-port-used')
             if socks_setconfs:
                 sim.fail('C18.config-changed-although-port-configured',
                          'Tor already has %r (requested %r) but received SETCONF %r' % (effective, requested, socks_setconfs))
-            allowed = [self.entry_addr(requested.split()[0])] if requested is not None else [self.entry_addr(f) for f in firsts]
+            allowed = [self.entry_addr(requested.split()[0])] if requested is not None else [self.entry_addr(f) for f in usable]
             if api == 'config-create' and requested is None:
                 allowed = [self.entry_addr(firsts[0])]
             if got not in allowed:
